@@ -896,13 +896,11 @@ class XPathToken(Token[ta.XPathTokenType]):
             elif math.isinf(obj):
                 return str(obj).upper()
 
-            value = str(obj)
+            value, _, exponent = str(obj).partition('e')
             if '.' in value:
-                value = value.rstrip('0').rstrip('.')
-            if '+' in value:
-                value = value.replace('+', '')
-            if 'e' in value:
-                return value.upper()
+                value = value.rstrip('0').rstrip('.')  # only the mantissa: 1.5e+20 is not 1.5E2
+            if exponent:
+                return '{}E{}'.format(value, exponent.replace('+', ''))
             return value
 
         elif isinstance(obj, self.registry.function_token):
